@@ -777,6 +777,9 @@ func TestVerif_C01_e2e(t *testing.T) {
 		tc := c01GenE2E(r)
 		if verifh.Thorough() && i%200 == 0 && tc.bodyKind != "none" {
 			tc.body = c01GenBody(1<<20+r.Intn(3)-1, 7, 3)
+			if tc.edited != nil && !strings.Contains(tc.edit, "body") {
+				tc.edited.body = tc.body // the retry hook leaves the body alone: the edited description carries the same one
+			}
 		}
 		comp, ka := r.Intn(2) == 0, r.Intn(3) != 0
 		method, ruri, lines, body, _ := c01Expected(tc)
